@@ -2,3 +2,18 @@
 claim("C12", "stateful property-based testing (proptest op histories) against a reference token ledger",
       "Random operation histories on the current-source token compared step by step with a reference ledger (balances, allowances with expiry, minters, owner, supply, standard events). Sampled, not exhaustive: it can show violations, not absence.",
       "soroban-sdk test host (storage, TTL, auth mocking) trusted; authorisation itself is C06/C07's business (all auths mocked here)", "DESIGN.md §3 C12")
+claim("C01", "property-based testing (proptest) with an independent digest recipe and acceptance predicate",
+      "Random gateway histories, signer sets, signing subsets and single perturbations of the proof / declared set / batch, on both validate_proof and approve_messages; accept/reject compared with an acceptance predicate computed from an independently derived digest (own Keccak-256 and XDR writer). Sampled search: finds violations, cannot show absence.",
+      "ed25519-dalek verify_strict (same library as the host) decides signature validity; Keccak/XDR oracles self-tested against sha3 / stellar-xdr at start-up", "DESIGN.md §3 C01")
+claim("C02", "stateful property-based testing (proptest histories) against a reference status map",
+      "Random histories of batched approvals and consumption attempts over id pools built to collide, checked op by op against a forward-only status map, with event traces and a sweep of both status queries after every op.",
+      "approvals carry honest 1-of-1 proofs (proof space is C01's); account callers are authorised with exact mock_auths trees", "DESIGN.md §3 C02")
+claim("C03", "stateful property-based testing (proptest histories + constructor cases) with a well-formedness predicate and lookup-inverse invariant",
+      "Random rotation-attempt histories and constructor cases with every malformation named in the statement; outcome compared with a predicate written from the statement; epoch/lookups checked to stay mutually inverse over all epochs and all hashes ever attempted; failures must leave the ledger snapshot identical.",
+      "constructor cases deploy through the host's create-contract path (factory probe + native function table) so that failure atomicity is the host's real rollback", "DESIGN.md §3 C03")
+claim("C08", "stateful property-based testing (proptest histories), every installed set probed after every step",
+      "Random rotation histories for six retention settings; after each step every installed set is probed on the standalone-proof and the approval path and compared with current - epoch <= retention; rotation attempts by non-latest sets with and without bypass.",
+      "minimum delay is 0 here (C09 studies the clock)", "DESIGN.md §3 C08")
+claim("C09", "stateful property-based testing (proptest histories) with a harness-owned ledger clock and a clock model",
+      "Random schedules of clock advances aimed at the delay boundary (-1/0/+1 s) interleaved with bypass and non-bypass rotation attempts (valid, invalid, duplicate candidates); outcomes compared with a last-success clock model.",
+      "ledger timestamps are set by the harness and only move forward", "DESIGN.md §3 C09")
